@@ -1,4 +1,5 @@
 import RsslVerif.Lemmas.GenMslProg
+import RsslVerif.Lemmas.IrFrame
 /-! Metal exporter, programs: the callable functions of the emitted program are linked to those of the typed program
 (`Worlds`) at every call depth. -/
 namespace RsslVerif.Lemmas.GenMsl
@@ -343,5 +344,25 @@ theorem worlds_prog (hP : ProgOK cx L prog mprog rsv xo vis0) (hS : ∀ d, SemOK
             have hre : Msl.restore [] σ σ1 = σ1 := by funext y; simp [Msl.restore]
             simp [i4, hre] }
 end
+
+/-- what remains to be assumed of the typed program: a function that gets a trampoline computes the same whatever value
+its `out` parameters have on entry (the source writes an `out` parameter before reading it) -/
+def OutOK (cx : Ctx) (P : Prim) (prog : List Ir.Func) (fuel : Nat) : Prop :=
+  ∀ d, ∀ fn ∈ prog, needsTrampoline cx fn = true → ∀ vals vals' σ, offOut fn.params vals vals' →
+    Spec.Sem.Ir.callFunc (irWorld P prog fuel d) fuel fn vals σ = Spec.Sem.Ir.callFunc (irWorld P prog fuel d) fuel fn vals' σ
+
+/-- the syntactic conditions that discharge the other two assumptions: no function mentions a trampoline's scratch slot,
+and a `void` function that gets a trampoline contains no `return e;` -/
+structure SynOK (cx : Ctx) (prog : List Ir.Func) (xo : Nat → Var) : Prop where
+  scratchFree : ∀ g ∈ prog, needsTrampoline cx g = true → ∀ fn ∈ prog, Ir.freeF (xo g.id) fn = true
+  voidNoRet : ∀ fn ∈ prog, needsTrampoline cx fn = true → fn.ret = .void → Ir.noRetSs fn.body = true
+
+theorem semOK_of {cx : Ctx} {P : Prim} {prog : List Ir.Func} {fuel : Nat} {xo : Nat → Var}
+    (hout : OutOK cx P prog fuel) (hsyn : SynOK cx prog xo) : ∀ d, SemOK cx P prog fuel xo d := fun d =>
+  { out := hout d
+    void := fun fn hmem hn hv => callFunc_void _ fuel fn (hsyn.voidNoRet fn hmem hn hv)
+    scratch := fun fn hmem hn =>
+      callFunc_frame (W := irWorld P prog fuel d) (phi_frame P prog fuel (xo fn.id) (hsyn.scratchFree fn hmem hn) d) fuel fn
+        (hsyn.scratchFree fn hmem hn fn hmem) }
 
 end RsslVerif.Lemmas.GenMsl
